@@ -867,6 +867,24 @@ def loop_sum(term):
     return init, step
 
 
+def stride_of(term):
+    """(start term, step term) if term is an arithmetic progression: the value of a loop counter
+    `i = a; loop { ..; i += s }`, or an element of `(a..b).step_by(s)` / `a..b` (step 1)"""
+    sm = loop_sum(term)
+    if sm is not None:
+        return sm
+    t = strip(term)
+    if t[0] == "call" and t[2].split("::")[-1] == "next" and t[3]:
+        it = strip(t[3][0])
+        if it[0] == "call" and it[2].split("::")[-1] == "step_by" and len(it[3]) == 2:
+            rng = strip(it[3][0])
+            if is_agg(rng) and rng[1].split("::")[-1] == "Range":
+                return agg_field(rng, "start"), it[3][1]
+        if is_agg(it) and it[1].split("::")[-1] == "Range":
+            return agg_field(it, "start"), ("lit", 1)
+    return None
+
+
 def named_local(fa, operand, bi, pos):
     """user variable an operand is a (copy of a copy of ...) of, or None"""
     p = op_place(operand)
